@@ -151,11 +151,11 @@ def vectorised(sp):
     the generic element of the condition"""
     for m in SPECIES_METHODS:
         def h(I_, obj, args, kwargs, base=sp.opaque_methods[m]):
-            if args:
-                raise Unsupported('model species %s called with positional arguments' % obj.name)
+            if any(isinstance(v, Elem) for v in args):
+                raise Unsupported('model species %s called with a vector by position' % obj.name)
             if any(isinstance(v, Elem) for v in kwargs.values()):
-                return Elem(base(I_, obj, [], {k: (v.r if isinstance(v, Elem) else v) for k, v in kwargs.items()}))
-            return base(I_, obj, [], kwargs)
+                return Elem(base(I_, obj, args, {k: (v.r if isinstance(v, Elem) else v) for k, v in kwargs.items()}))
+            return base(I_, obj, args, kwargs)
         sp.opaque_methods[m] = h
     return sp
 
@@ -183,9 +183,10 @@ KW_SPECIES = ('H2O', 'H2O2(S)', 'H2O(S)', 'PT(B)')        # their getters accept
 
 
 def named_reaction(I, repo, qual):
-    """H2 + H2O + PT(S) = [H2O2(S) + H2O_TS] = H2O(S) + h2o + PT(B): species whose names are stems, prefixes and case
-    variants of one another, a name that contains the separator of the block syntax (H2O_TS, as the transition state
-    of the package's own examples is called), gas and surface phases, a catalyst site (built by its public
+    """H2 + H2O + PT(S) + Ag = [H2O2(S) + H2O_TS] = H2O(S) + h2o + PT(B): species whose names are stems, prefixes and
+    case variants of one another, a name that contains the separator of the block syntax (H2O_TS, as the transition
+    state of the package's own examples is called), a name that ends in letters of the suffix ``_kwargs`` itself (Ag:
+    an element symbol), gas and surface phases, a catalyst site (built by its public
     constructor) whose bulk species takes part; three species per side, two in the transition state; symbolic
     coefficients; both kinds of model species (getters with a fixed signature, getters accepting **kwargs) on every
     side"""
@@ -197,11 +198,12 @@ def named_reaction(I, repo, qual):
         raise Unsupported('CatSite(...) raised %s' % site.exc)
     sp = {}
     for nm, ph, st in (('H2', 'G', None), ('H2O', 'G', None), ('PT(S)', 'S', site), ('H2O2(S)', 'S', site),
-                       ('H2O_TS', 'G', None), ('H2O(S)', 'S', site), ('h2o', 'G', None), ('PT(B)', 'S', site)):
+                       ('H2O_TS', 'G', None), ('H2O(S)', 'S', site), ('h2o', 'G', None), ('PT(B)', 'S', site),
+                       ('Ag', 'G', None)):
         sp[nm] = species(I, nm, ph, st)
         if nm in KW_SPECIES:
             accept_kwargs(I, repo, sp[nm])
-    sides = {'reactants': ('H2', 'H2O', 'PT(S)'), 'transition_state': ('H2O2(S)', 'H2O_TS'),
+    sides = {'reactants': ('H2', 'H2O', 'PT(S)', 'Ag'), 'transition_state': ('H2O2(S)', 'H2O_TS'),
              'products': ('H2O(S)', 'h2o', 'PT(B)')}
     nu = {nm: D.sym('nu<%s>' % nm) for nm in sp}
     rxn = make_reaction(I, repo, qual, [sp[x] for x in sides['reactants']], [nu[x] for x in sides['reactants']],
@@ -283,7 +285,7 @@ def named(run, repo, cname, qual, ci, oracle=None):
     #    name it is a prefix or the stem of, not the one that differs in case)
     every = {nm: {'P': D.sym('P<%s>' % nm)} for nm in sp}
     cases = [('a block for every species', every)]
-    for nm in ('H2', 'H2O', 'H2O(S)', 'h2o', 'H2O2(S)', 'PT(B)', 'H2O_TS'):
+    for nm in ('H2', 'H2O', 'H2O(S)', 'h2o', 'H2O2(S)', 'PT(B)', 'H2O_TS', 'Ag'):
         cases.append(('a block for %s alone' % nm, {nm: {'P': D.sym('P2'), 'T': D.sym('T2')}}))
     for label, blocks in cases:
         order = ['T', 'P'] + [b + '_kwargs' for b in blocks]
@@ -293,8 +295,8 @@ def named(run, repo, cname, qual, ci, oracle=None):
             want = routed_state(I, fx, which, 'get_HoRT', kw, blocks)
             run.check(same(got, want), 'DATAFLOW.species-kwargs', cname + '.get_state_quantity',
                       'related names: %s, state:%s' % (label, st),
-                      'species H2, H2O, H2O(S), h2o, H2O2(S), H2O_TS, PT(S), PT(B): conditions addressed to one species by '
-                      'its name must reach that species and no other: %s' % show(got, 300), owner.module, fn)
+                      'species H2, H2O, H2O(S), h2o, H2O2(S), H2O_TS, PT(S), PT(B), Ag: conditions addressed to one '
+                      'species by its name must reach that species and no other: %s' % show(got, 300), owner.module, fn)
             n += 1
         got = call(I, rxn, 'get_delta_GoRT', [], as_kwargs(order, kw, blocks))
         want = routed_delta(I, fx, 'get_GoRT', kw, blocks)
@@ -695,14 +697,33 @@ def special_coefficients(run, repo, cname, qual, ci, oracle):
                 accept_kwargs(I, repo, sp['r1'])
                 accept_kwargs(I, repo, sp['p0'])
                 nu = {nm: (C(c) if nm in fixed else D.sym('nu_' + nm)) for nm in sp}
-                sides = {w: ([sp[x] for x in nms], [nu[x] for x in nms]) for w, nms in
-                         (('reactants', ('r0', 'r1')), ('products', ('p0', 'p1')), ('transition_state', ('t0',)))}
+                members = {'reactants': ('r0', 'r1'), 'products': ('p0', 'p1'), 'transition_state': ('t0',)}
+                sides = {w: ([sp[x] for x in nms], [nu[x] for x in nms]) for w, nms in members.items()}
                 rxn = make_reaction(I, repo, qual, *[x for w in ('reactants', 'products', 'transition_state')
                                                      for x in sides[w]], name='rxn_special')
-                n += laws(run, repo, cname, ci, I, rxn, sides, {'T': D.sym('T'), 'P': D.sym('P')},
-                          'coefficient %s of %s' % (c, tag),
+                kw = {'T': D.sym('T'), 'P': D.sym('P')}
+                n += laws(run, repo, cname, ci, I, rxn, sides, kw, 'coefficient %s of %s' % (c, tag),
                           'with the coefficient %s (a number the evaluation tests for) for %s and generic '
                           'coefficients for the other species' % (c, tag))
+                # ... and the conditions addressed to these very species still reach them
+                blocks = {nm: D.sym('P2<%s>' % nm) for nm in fixed}
+                kwb = dict(kw, **{nm + '_kwargs': DictV({'P': p_}) for nm, p_ in blocks.items()})
+
+                def total(which):
+                    tot = C(0)
+                    for nm in members[which]:
+                        tot = tot + nu[nm] * sp[nm].opaque_methods['get_GoRT'](
+                            I, sp[nm], [], {'T': kw['T'], 'P': blocks.get(nm, kw['P'])})
+                    return tot
+                owner, fn = where(repo, ci, 'get_state_quantity')
+                for act, fin in ((False, 'products'), (True, 'transition_state')):
+                    got = call(I, rxn, 'get_delta_GoRT', [], dict(kwb, rev=False, act=act))
+                    run.check(same(got, total(fin) - total('reactants')), 'DATAFLOW.species-kwargs',
+                              cname + '.get_delta_GoRT', 'coefficient %s of %s: a block for each of them, act=%s'
+                              % (c, tag, act),
+                              'with the coefficient %s for %s the conditions addressed to these species by name must '
+                              'still reach them (and nobody else): %s' % (c, tag, show(got, 300)), owner.module, fn)
+                    n += 1
 
 
 def check(run, repo):
@@ -716,7 +737,7 @@ def check(run, repo):
         'getters equal delta(act=True); Keq = exp(-delta G/RT) and K_f*K_r = 1; a keyword block addressed to one '
         'species reaches only that species; caller-supplied dictionaries are unchanged after the call. The values '
         'with units (state, change, activation) are decided in J/mol and a second unit. A second model reaction '
-        '(H2 + H2O + PT(S) = [H2O2(S) + H2O_TS] = H2O(S) + h2o + PT(B); gas and surface species, a CatSite whose bulk '
+        '(H2 + H2O + PT(S) + Ag = [H2O2(S) + H2O_TS] = H2O(S) + h2o + PT(B); gas and surface species, a CatSite whose bulk '
         'species takes part) decides that the sums run over all species whatever their site, that a block is '
         'addressed by the exact name (stems, prefixes, case variants receive nothing; a name may contain the '
         'underscore of the block syntax) and that the order of the keyword arguments does not matter. Model species '
@@ -728,11 +749,18 @@ def check(run, repo):
         'with exact rational species values and coefficients (conformers whose states differ by a few 1e-6 of '
         'values of size 1e4; coefficients 0.25, 0.5, 0.75, 1, 1.5, 2, 4 with a species on both sides) are evaluated '
         'in rational arithmetic first, so that a decision taken on a value (a tolerance, a rounding, a test on a '
-        'coefficient) is followed and compared with the sums.')
+        'coefficient) is followed and compared with the sums; there the number every exp is applied to on the way to '
+        'an equilibrium constant is known and must lie in the range of doubles (the states have G/RT of size 1e4, '
+        'the constant is exp of their difference). In the symbolic reactions a test of a coefficient against a number '
+        '(coeff == 1) is answered "different" (generic coefficient) and the laws are decided again on reactions in '
+        'which coefficients are that number. Every class is evaluated with a vector of temperatures of unknown '
+        'length (model species evaluate element by element): states, changes, constants and values with units must '
+        'be the vector of the scalar law.')
     run.assumptions = ['species getters are arbitrary functions of the conditions they read - T, P, include_ZPE, '
                        'ignore_q_elec - (uninterpreted atoms); a species whose getters accept **kwargs ignores '
                        'every other key, blocks addressed to species included, as the empirical classes do']
-    run.undecided = ['floating-point evaluation (the concrete reactions are decided over the rationals); partition '
+    run.undecided = ['floating-point evaluation other than the range of exp in get_Keq (the concrete reactions are '
+                     'decided over the rationals); comparisons of a coefficient other than ==/!= with a number; partition '
                      'functions of concrete reactions with fractional coefficients; species whose getters ignore '
                      'their arguments; species that pick a block addressed to them out of **kwargs themselves '
                      '(StatMech) when the reaction hands it on unsorted']
@@ -962,22 +990,34 @@ def network(run, repo):
         raise AnchorError('pmutt.reaction.network.get_state_quantity not found')
     repo.consulted.add(m)
     run.fn('pmutt.reaction.network.get_state_quantity')
-    I = Interp(repo, order=GenericCoefficients())
-    D = I.D
-    T, P, P2 = D.sym('T'), D.sym('P'), D.sym('P2')
-    rxn, rs, ps, ts = reaction(I, repo, 'pmutt.reaction.Reaction')
-    nu = get_public(I, rxn, 'reactants_stoich')
-    for meth in ('get_q', 'get_HoRT', 'get_GoRT'):
-        got = I.call_function(m, fn, [], {'species': ListV(rs), 'stoich': nu, 'method_name': meth, 'T': T, 'P': P,
-                                          'r1_kwargs': DictV({'P': P2})})
-        want = C(1) if meth == 'get_q' else C(0)
-        for sp, n_, p_ in zip(rs, nu.items, (P, P2)):
-            x = sp.opaque_methods[meth](I, sp, [], {'T': T, 'P': p_})
-            want = want * D.pow_sym(x, n_) if meth == 'get_q' else want + x * n_
-        run.check(same(got, want), 'SIB.state', 'network.get_state_quantity', meth,
-                  'the network copy of the state evaluation disagrees with Reaction.get_state_quantity: %s'
-                  % show(got, 200), m, fn, sample='network.get_state_quantity(%s) == sum nu_i x_i' % meth)
+    oracle = GenericCoefficients()
 
+    def one(fixed, tag):
+        I = Interp(repo, order=oracle)
+        D = I.D
+        T, P, P2 = D.sym('T'), D.sym('P'), D.sym('P2')
+        rxn, rs, ps, ts = reaction(I, repo, 'pmutt.reaction.Reaction')
+        nu = get_public(I, rxn, 'reactants_stoich')
+        if fixed is not None:
+            nu = ListV(list(nu.items[:1]) + [C(fixed)] + list(nu.items[2:]))
+        for meth in ('get_q', 'get_HoRT', 'get_GoRT'):
+            got = I.call_function(m, fn, [], {'species': ListV(rs), 'stoich': nu, 'method_name': meth, 'T': T, 'P': P,
+                                              'r1_kwargs': DictV({'P': P2})})
+            want = C(1) if meth == 'get_q' else C(0)
+            for sp, n_, p_ in zip(rs, nu.items, (P, P2)):
+                x = sp.opaque_methods[meth](I, sp, [], {'T': T, 'P': p_})
+                want = want * D.pow_sym(x, n_) if meth == 'get_q' else want + x * n_
+            run.check(same(got, want), 'SIB.state', 'network.get_state_quantity', meth + tag,
+                      'the network copy of the state evaluation disagrees with Reaction.get_state_quantity: %s'
+                      % show(got, 200), m, fn, sample='network.get_state_quantity(%s) == sum nu_i x_i' % meth)
+
+    one(None, '')
+    # the numbers a coefficient is compared with, as the coefficient of the species the block is for (see step 10)
+    while oracle.special - oracle.done:
+        for c in sorted(oracle.special - oracle.done):
+            oracle.done.add(c)
+            if Fr(1, 4) <= c <= 4:
+                one(c, ' coefficient %s' % c)
 
 R = 'pmutt/reaction/__init__.py'
 MUTANTS = [
@@ -1105,6 +1145,21 @@ MUTANTS = [
                 "                state_quantity += \\\n                    _force_pass_arguments(\n"
                 "                        method, **{k: v for k, v in kwargs.items() if 'kwargs' not in k},\n"
                 "                        **(kwargs.get('{}_kwargs'.format(specie.name)) or {}))*coeff")]},
+    {'name': 'the suffix of a block key is removed with rstrip (a set of characters, not a suffix)',
+     'expect': ('DATAFLOW.species-kwargs', ''),
+     'edits': [('pmutt/__init__.py', "            if key == '{}_kwargs'.format(specie_name):",
+                "            if key.rstrip('_kwargs') == specie_name:")]},
+    {'name': 'a fast path for a coefficient of exactly 1 in the network copy hands on the unsorted conditions',
+     'expect': ('SIB.state', 'network.get_state_quantity'),
+     'edits': [('pmutt/reaction/network.py', "        else:\n            state_quantity += \\\n                    _force_pass_arguments(method, **specie_kwargs)*coeff",
+                "        elif coeff == 1:\n            state_quantity += \\\n"
+                "                    _force_pass_arguments(method, **kwargs)\n        else:\n            state_quantity += \\\n                    _force_pass_arguments(method, **specie_kwargs)*coeff")]},
+    {'name': 'a fast path for a coefficient of exactly 1 hands on the unsorted conditions',
+     'expect': ('DATAFLOW.species-kwargs', 'get_delta_GoRT'),
+     'edits': [(R, "            else:\n                state_quantity += \\\n                        _force_pass_arguments(method, **specie_kwargs)*coeff",
+                "            elif coeff == 1:\n                state_quantity += \\\n"
+                "                    _force_pass_arguments(method, **kwargs)\n"
+                "            else:\n                state_quantity += \\\n                        _force_pass_arguments(method, **specie_kwargs)*coeff")]},
 ]
 EQUIV = [
     {'name': 'delta written as -(initial - final)',
@@ -1131,4 +1186,8 @@ EQUIV = [
                 "        initial_state, final_state = _get_states(rev=rev, act=act)\n"
                 "        return np.exp(self.get_GoRT_state(state=initial_state, **kwargs)\n"
                 "                      - self.get_GoRT_state(state=final_state, **kwargs))")]},
+    {'name': 'fast path for a coefficient of exactly 1 in the network copy',
+     'edits': [('pmutt/reaction/network.py', "        else:\n            state_quantity += \\\n                    _force_pass_arguments(method, **specie_kwargs)*coeff",
+                "        elif coeff == 1:\n            state_quantity += \\\n"
+                "                    _force_pass_arguments(method, **specie_kwargs)\n        else:\n            state_quantity += \\\n                    _force_pass_arguments(method, **specie_kwargs)*coeff")]},
 ]
